@@ -329,6 +329,10 @@ def r07_12(ctx) -> None:
 
 
 def run(ctx) -> None:
+    from .c03 import r03_6 as _r03_6
+    ctx.guard_as("R07.13", _r03_6)
+    from .c15 import r15_2 as _r15_2
+    ctx.guard_as("R07.14", _r15_2, "jws")  # RFC 7797 tokens of another implementation: "b64" needs to be IN crit, crit may list more
     ctx.guard(r07_10)
     ctx.guard(r07_11)
     ctx.guard(r07_12)
